@@ -21,12 +21,12 @@ type FnInfo struct {
 }
 
 type Program struct {
-	prog    *ssa.Program
-	pkgs    map[string]*ssa.Package
-	fnInfo  sync.Map // *ssa.Function -> *FnInfo
+	prog      *ssa.Program
+	pkgs      map[string]*ssa.Package
+	fnInfo    sync.Map // *ssa.Function -> *FnInfo
 	intrCache sync.Map
-	methMu  sync.Mutex
-	repoMod string
+	methMu    sync.Mutex
+	repoMod   string
 }
 
 func (p *Program) info(fn *ssa.Function) *FnInfo {
@@ -109,39 +109,39 @@ type Exec struct {
 	S  *Solver
 
 	// per path
-	globals  map[*ssa.Global]*Obj
-	nextObj  int
-	gs       []*Goroutine
-	cur      *Goroutine
-	steps    int64
-	inited   map[*ssa.Package]bool
-	locks    map[string]*lockState
-	onces    map[string]bool
-	wgs      map[string]int
-	nondetN  map[string]int
-	pathVars []nondetRec
-	choices  []int // harness-level Choose outcomes on this path
-	observes []observeRec
-	covers   map[string]bool
-	clockN   int
-	lastNow  *Term
-	timers   []*Obj
-	writeHook func(*Obj)
-	frameOwned map[*Obj]bool
-	byteTab  [256]*Term
-	pathAll  []*Term
-	epoch    int
-	saved    map[*Obj]Value
+	globals     map[*ssa.Global]*Obj
+	nextObj     int
+	gs          []*Goroutine
+	cur         *Goroutine
+	steps       int64
+	inited      map[*ssa.Package]bool
+	locks       map[string]*lockState
+	onces       map[string]bool
+	wgs         map[string]int
+	nondetN     map[string]int
+	pathVars    []nondetRec
+	choices     []int // harness-level Choose outcomes on this path
+	observes    []observeRec
+	covers      map[string]bool
+	clockN      int
+	lastNow     *Term
+	timers      []*Obj
+	writeHook   func(*Obj)
+	frameOwned  map[*Obj]bool
+	byteTab     [256]*Term
+	pathAll     []*Term
+	epoch       int
+	saved       map[*Obj]Value
 	baseGlobals map[*ssa.Global]*Obj
 	baseInited  map[*ssa.Package]bool
 	baseOnces   map[string]bool
 	baseNextObj int
 
 	// DFS
-	trail   []*decision
-	pos     int
-	model   Model
-	evalC   map[*Term]*Term
+	trail []*decision
+	pos   int
+	model Model
+	evalC map[*Term]*Term
 
 	// config
 	maxSteps int64
